@@ -5,6 +5,7 @@ import IastModel.Lemmas.Targets
 import IastModel.Lemmas.Temps
 import IastModel.Js.FindEntry
 import IastModel.Spec.EraseSpec
+import IastModel.Lemmas.CovScope
 /-
   Line-protocol driver.  One JSON record per stdin line (written by the Rust harness, which ran the
   real rewriter on the same request), one JSON verdict per stdout line:
@@ -113,6 +114,11 @@ def processRewrite (rec : J) : Verdict := Id.run do
     -- the hypotheses of the erasure theorems (C02): a well-formed source tree; without optional chaining for the
     -- whole-pipeline theorem
     v := v.addStat "hyp_erase" (jstr (if !srcOk p then "not-a-well-formed-source-tree" else if !noOpt cfg p then "met-except-a-lowered-optional-chain" else "met"))
+    -- the scope of the C04 theorems (`inScope`, proved sound) on the occurrences the coverage oracle demands
+    if NoNs p && targetsOk p then
+      let occs := (occurrences cfg {} p).filter fun o => !o.what.startsWith "opt-call"
+      v := v.addStat "c04_occurrences" (jnat occs.length)
+      v := v.addStat "c04_in_theorem_scope" (jnat (occs.filter fun o => inScope cfg p o.dst o.sp).length)
     if r.fuelOut then v := v.addCorr "fuel" (jstr "model ran out of fuel")
     -- outcome / status
     let realStatus :=
